@@ -62,15 +62,7 @@ def corpus_texts(tier):
             texts.append(('corpus/' + os.path.basename(path), fin.read()))
 
     if tier == 'thorough':
-        for name in ['foo.asn', 'all_types.asn',
-                     'all_types_automatic_tags.asn',
-                     'extensibility_implied.asn', 'module_tags_automatic.asn',
-                     'module_tags_explicit.asn', 'module_tags_implicit.asn',
-                     'named_numbers.asn', 'enumerated.asn',
-                     'constraints_extensions.asn', 'time_types.asn',
-                     'parameterization.asn', 'information_object.asn',
-                     'ietf/rfc5280.asn', 'ietf/rfc4511.asn',
-                     'ietf/rfc1157.asn', '3gpp/s1ap_14.4.0.asn']:
+        for name in LIGHT_FIXTURES + HEAVY_FIXTURES:
             path = os.path.join(REPO, 'tests', 'files', name)
 
             if os.path.exists(path):
@@ -78,6 +70,17 @@ def corpus_texts(tier):
                     texts.append(('fixture/' + name, fin.read()))
 
     return texts
+
+
+# Repository fixtures that parse here; the heavy ones (seconds per compile
+# under the step clock) only get a few persisted-first histories.
+LIGHT_FIXTURES = ['foo.asn', 'all_types_automatic_tags.asn',
+                  'extensibility_implied.asn', 'module_tags_automatic.asn',
+                  'module_tags_explicit.asn', 'module_tags_implicit.asn',
+                  'named_numbers.asn', 'enumerated.asn',
+                  'constraints_extensions.asn', 'time_types.asn']
+HEAVY_FIXTURES = ['all_types.asn', 'ietf/rfc4511.asn', 'ietf/rfc5280.asn',
+                  'information_object.asn']
 
 
 class C13(Engine):
@@ -124,6 +127,10 @@ class C13(Engine):
                           'tier': tier,
                           'seed': mix(seed, 'persisted', name)})
 
+            if name.startswith('fixture/') \
+                    and name[len('fixture/'):] in HEAVY_FIXTURES:
+                continue
+
             for first in range(len(CONFIGS)):
                 items.append({'kind': 'pairs', 'corpus': name,
                               'first': first, 'tier': tier,
@@ -151,6 +158,11 @@ class C13(Engine):
             histories = [[first, second] for second in CONFIGS]
         elif item['kind'] == 'persisted':
             histories = [[config] for config in CONFIGS]
+
+            if item['corpus'].startswith('fixture/') \
+                    and item['corpus'][len('fixture/'):] in HEAVY_FIXTURES:
+                histories = [[('ber', False)], [('uper', True)],
+                             [('jer', False)]]
         else:
             rng = random.Random(item['seed'])
             histories = [[first, rng.choice(CONFIGS), rng.choice(CONFIGS)]
